@@ -13,6 +13,7 @@ PAIR_TYPES = [("FLOAT_INT", "float_int"), ("LONG_INT", "long_int"), ("DOUBLE_INT
               ("2FLOAT", "float_float"), ("2DOUBLE", "double_double")]
 QUICK_PAIR = {"DOUBLE_INT", "2INT", "SHORT_INT"}
 OPS = {"max": 0, "min": 1, "sum": 2, "prod": 3, "land": 4, "lor": 5, "lxor": 6, "band": 7, "bor": 8, "bxor": 9, "maxloc": 10, "minloc": 11, "replace": 12}
+THOROUGH_MAX = 220  # all quick shapes + a fixed strided sample of the other thorough shapes (lib/vf.py)
 META = {
     "bounds": "every predefined reduction function x datatype branch of smpi_op.cpp (quick: a sample of 7 integer, 2 floating and 3 pair types per operator), vectors of "
               "symbolic length 0..3, all element values symbolic (integers: full width; floating point: any double incl. NaN/inf, compared by value); "
